@@ -103,7 +103,7 @@ def late_writer_case(rng):
                     record(rng.choice([12, 99]), rng.choice([0, rid]), [1, 2, 3], 0)])
     recs = minimal_preamble(rid, rng.choice([1, 1, 3]), flags=rng.choice([0, 1])) + [q, record(STDIN, rid, [97, 98, 99], 0), record(STDIN, rid, [], 0)]
     segs = [(0, 0, flat(recs))]
-    then = rng.choice([[("write", STDOUT, [104, 105])], [("write", STDERR, [33] * 20)], [("flush", STDERR)], [("write", STDOUT, [104, 105]), ("read", 16)]])
+    then = rng.choice([[("write", STDOUT, [104, 105])], [("write", STDERR, [33] * 20)], [("flush", STDERR)], [("write", STDOUT, [104, 105]), ("read", 16)], [], []])          # ([]: no writer at all - the handler just returns and close finishes the reply)
     scripts = [rng.choice([[], [("read", 16)]]) + [("poll1", rng.choice([1, 5, 64]))] + then + [("ret", 0, 0)]]
     ws = [rng.choice([1, 3, 5, 8, 20]), 0] + [10 ** 6] * 10
     return conn_case(rng.choice([64, 8192]), 1, segs, scripts, [], ws, rng.choice([0, 1])), ["late-writer", "query"]
@@ -123,6 +123,8 @@ def framing_rule(line, impl_line):
     for t, i, body, pad in recs:
         if t not in (STDOUT, STDERR, END, GETVALUESRESULT, UNKNOWN) or i not in (0, rid) or pad >= 8 or (t in (STDOUT, STDERR) and (len(body) + pad) % 8):
             return "the transport log contains a malformed record (type %d, id %d, %d + %d bytes): records were interleaved" % (t, i, len(body), pad)
+    if tail == "cut" and head[0] == 0:
+        return "the connection task returned leaving an unfinished record on the wire although the transport never failed"
     if tail == "cut":
         # the unfinished record at the end must itself start like a record the server sends
         done = sum(8 + len(b) + p for _, _, b, p in recs)
